@@ -49,7 +49,9 @@ type Marshaller struct {
 }
 
 func (x *Marshaller) Marshal(v interface{}) error {
-	x.marshaller.Bind(v)
+	if err := x.marshaller.Bind(v); err != nil {
+		return err
+	}
 	x.encoder.Reset()
 	return x.pump.Run()
 }
@@ -85,7 +87,9 @@ type Unmarshaller struct {
 }
 
 func (x *Unmarshaller) Unmarshal(v interface{}) error {
-	x.unmarshaller.Bind(v)
+	if err := x.unmarshaller.Bind(v); err != nil {
+		return err
+	}
 	x.decoder.Reset()
 	return x.pump.Run()
 }
